@@ -1,6 +1,7 @@
 SPECIFICATION Spec
 CONSTANTS
   GuardReserved = TRUE
+  GuardNul = TRUE
   MaxSegs = 1
   MaxRecs = 3
   MaxPath = 4
